@@ -416,8 +416,8 @@ PROPS['C07'] = {
             'GC.findReachable composes them from the constructor state; GC.isReachable is the kept predicate; '
             'FileStoragePacker.pack/copyRest/copyOne: the packer returns, holding the commit lock, only after an '
             'end-of-file test at the frontier of the copy against the REAL end of the data file (transactions committed '
-            'while it ran are consumed; rely: other threads append only while the lock is free); FileStorage.pack installs '
-            'the packed file, its index and end position. '
+            'while it ran are consumed; rely: other threads append only while the lock is free); that FileStorage.pack then '
+            'installs the packed file, its index and end position is proved under C08. '
             'BOUNDED only: the CONTENT written by the copy phase (copyToPacktime/copyDataRecords/copyOne/PackCopier), '
             'blobs, MappingStorage.pack/DemoStorage.pack and the statement as observed through load/iterator/undo - by the '
             'before/after harness (incl. a commit from another thread in each packer phase).',
